@@ -334,9 +334,8 @@ theorem Ty.framedFull (m : Mode) : ∀ (t : Ty), t.wf = true → ∀ v, t.wt v =
       simp only [Ty.wf, Bool.and_eq_true] at hw
       by_cases hz : mt.zero = true
       · -- zero-copy structure: one block
-        simp only [hz, if_true, Bool.and_eq_true, Bool.not_eq_true'] at hw
-        have hne : mt.isEnum = false := hw.1.2.1
-        have hzc : (Ty.adt mt vs).isZC = true := by simp [Ty.isZC, hz, hw.1.2.2]
+        simp only [hz, if_true, Bool.and_eq_true] at hw
+        have hzc : (Ty.adt mt vs).isZC = true := by simp [Ty.isZC, hz, hw.1.2.1]
         cases v with
         | record fs =>
           rw [Ty.blocks_adt_zero mt vs fs pos hz] at ha
@@ -344,7 +343,12 @@ theorem Ty.framedFull (m : Mode) : ∀ (t : Ty), t.wf = true → ∀ v, t.wt v =
           have hrt := Ty.memRT (.adt mt vs) hzc hw' (.record fs) hwt
           rw [decFullZero_ok m (.adt mt vs) (.record fs) pos rest hrt (AlignedAll_single ha)]
           simp
-        | variant i fs => simp [Ty.wt, hne] at hwt
+        | variant i fs =>
+          rw [Ty.blocks_adt_zero_variant mt vs i fs pos hz] at ha
+          rw [Ty.enc_adt_zero_variant mt vs i fs pos hz, Ty.decFull_adt_zero m mt vs _ pos hz]
+          have hrt := Ty.memRT (.adt mt vs) hzc hw' (.variant i fs) hwt
+          rw [decFullZero_ok m (.adt mt vs) (.variant i fs) pos rest hrt (AlignedAll_single ha)]
+          simp
         | _ => simp [Ty.wt] at hwt
       · simp only [hz, if_false, Bool.false_eq_true] at hw
         have hzf : mt.zero = false := by simpa using hz
